@@ -34,6 +34,20 @@ CHECKS = {
          "mutations of valid documents, in exact-size heap buffers without terminator under ASan+UBSan, with a guarded hook in memory_input that also sees logical ends inside a larger buffer."),
    note=GENERAL_NOTE + " Partial: the theorem is about the model's window discipline; the binary's memory safety is exploration (ASan/UBSan/hook). memcmp-style reads (string, istring, read_uint) are modelled as guarded by their size check and are visible to ASan only at the true end of the allocation. buffer_input is covered by C07.",
    technique="Lean 4 invariant proof (window discipline of the model) + ASan/UBSan/hook exploration of the real parser on the corpus and on shipped grammars"),
+ 'C05': dict(engine='matcher-model', design_ref='DESIGN.md §6 C05',
+   text=("Proof (Lean 4): a parse_error leaving a run blames exactly the rule the (deterministic, left-to-right) PEG formalism with labelled failures blames (C05_blame); every exception leaving any invocation was created "
+         "inside it — a parse_error at a raise hook for the same rule with the same position, a foreign exception by an action call of that rule — i.e. it passed every combinator in between unchanged (C05_origin, by a "
+         "trace invariant closed over all rule bodies and the match.hpp protocol); must<R> raises where R's attempt ended, not before where it began (C05_must_position); error positions are scan positions of a consumed prefix, "
+         "so byte/line/column are mutually consistent (C05_position_consistent); try_catch_*_return_false / _raise_nested convert exactly the exception classes they name and restore the cursor when required (C05_catch_*)."),
+   note=GENERAL_NOTE + " The what() string 'source:line:column: message' is produced by unmodelled C++ string code; the harness compares it on every observed parse_error. must_if controls are not modelled.",
+   technique="Lean 4 refinement (blame) + trace-invariant proof (origin, positions) + local characterisation of must/try_catch bodies; differential correspondence; trace oracles for identity, interval, conversion"),
+ 'C06': dict(engine='matcher-model', design_ref='DESIGN.md §6 C06',
+   text=("Proof (Lean 4): a scan of the consumed prefix (what lazy inputs do) computes exactly the documented position (C06_scan_spec); from a tracked cursor, after any invocation — whatever consumed the prefix and however "
+         "often the parser backtracked — the eagerly tracked cursor is again that of a scan, and every position in every event (hooks, action inputs, enter/exit, raise) is the scan position of a consumed prefix, hence identical for "
+         "eager and lazy inputs (C06_tracked, C06_reported, C06_lazy_eq_eager, C06_parse): each atom's bump_in_this_line / bump_to_next_line shortcut is justified from its test_any. Scope: every eol policy except cr_crlf, "
+         "for which the property is false (C06_cr_crlf_witness, known finding F11), byte-oriented atoms."),
+   note=GENERAL_NOTE + " Partial: eol::cr_crlf excluded (KNOWN-FINDING F11); the UTF-8 range atom and the integer digit-run atom are covered by the correspondence run only; parse-tree node positions are covered by C12 when built.",
+   technique="Lean 4 invariant proof (eager tracking = scan) over atoms and all rule bodies; differential correspondence under 5 eol policies x eager/lazy; independent Python recomputation of positions; eager/lazy pairing oracle"),
  'C08': dict(engine='matcher-model', design_ref='DESIGN.md §6 C08',
    text=("Proof (Lean 4): the trace of every invocation of the model — any grammar table, input, mode, void / vetoing / throwing / match()-wrapping actions, controls with and without unwind() — is accepted by the "
          "hook automaton: start is the first hook of the innermost open invocation of that rule, apply/apply0 come at most once after start and before the closing hook, there is exactly one closing hook, and it agrees "
@@ -55,6 +69,13 @@ CHECKS = {
          "success consumes exactly the unit length, failure consumes nothing."),
    note=GENERAL_NOTE + " Tie: exhaustive over every byte per class, all 1-2 byte and (quick: lead E0..EF / thorough: all) 3-byte UTF-8 inputs, boundary 4-byte inputs, all truncations, every 16-bit unit, all uint16 values; UTF-32/uint32/uint64 boundary-structured. Only the little-endian-host branch of endian_gcc.hpp and signed char are modelled (static asserts in the harness).",
    technique="Lean 4 proof about executable models of the peek/test functions and a translated class table; exhaustive differential correspondence; Python codec oracle"),
+ 'C11': dict(engine='leaf-analyze', design_ref='DESIGN.md §6 C11',
+   text=("Proof (Lean 4): for every well-formed node table, if the model of analyze_cycles_impl::problems() over the analyze_traits table returns 0 then every invocation of every rule terminates on every input "
+         "(C11_terminates, all 23 kinds with traits; strict/star_strict have none and are reported) — the statement PEGTL's documentation calls 'conjectured, but not proven' — the 'consumes' flags are sound, and the analysis "
+         "itself terminates. Tie: the real m_entries table is dumped and compared structurally with the model table and the model's work() is evaluated on the real table, on every run. Oracle: step- and depth-budgeted real "
+         "parser on all inputs up to L for every certified grammar."),
+   note=GENERAL_NOTE + " Loop witnesses are bounded to inputs <= 3 (quick) / 4 (thorough) while the proof covers all inputs; change_action well-foundedness is assumed (ActionsWF); raw_string is oracle-only; the integer / ICU traits are not exercised.",
+   technique="Lean 4 termination proof by double induction (bytes left x DFS fuel); differential entry-table comparison; step- and depth-budgeted witness search"),
  'C15': dict(engine='leaf-integer', design_ref='DESIGN.md §6 C15',
    text=("Proof (Lean 4): for every width w >= 1, every Maximum <= 2^w-1 and every input window, the model's integer rules accept exactly [-+]?(0|[1-9][0-9]*) with maximal munch (equal to the PEG meaning of "
          "unsigned_rule_new / signed_rule_new), store exactly the mathematical value or report overflow, never compute outside the type, never read outside the window, and consume nothing on local failure."),
@@ -90,8 +111,8 @@ CHECKS = {
 
 PENDING = {
 
- 'C04': "check under construction", 'C05': "check under construction", 'C06': "check under construction",
- 'C07': "check under construction", 'C11': "check under construction", 'C12': "check under construction",
+ 'C04': "check under construction",
+ 'C07': "check under construction", 'C12': "check under construction",
  'C13': "check under construction", 'C14': "check under construction",
  'C20': "check under construction",
 }
